@@ -18,6 +18,7 @@ K = {
         ('c17::c17_series_interpolate_knots', 'qt'), ('c17::c17_series_interpolate_tiny_gap', 'qt'),
         ('c17::c17_series_index_after', 'qt'),
     ],
+    'C06': [('c06::c06_cast_ray_origin_inside', 't')],
     'C18': [
         ('c18::c18_signed_compliment', 'qt'), ('c18::c18_interval_new', 'qt'), ('c18::c18_interval_algebra', 'qt'),
     ],
